@@ -294,36 +294,44 @@ def run(chk):
         return
     rng = random.Random(chk.seed)
     quick = chk.tier == "quick"
-    ops = []
-    for c in CORPUS:
-        ops += c
-    isns = [M32 - 3, M32 - 1, 0, HALF - 2] if quick else [M32 - 4, M32 - 3, M32 - 2, M32 - 1, 0, 5, HALF - 2, HALF]
-    for c in exhaustive_cases(4 if quick else 6, isns, 10**7):
-        ops += c
-    stats = corr.correspond(chk, AREA, exe, ops, case_start=CASE_START, classify=classify, sig_of=sig_of,
-                            nontrivial=nontrivial)
-    oracle_counts(chk, exe, ops)
-    rounds = 1 if quick else 8
-    for _ in range(rounds):
-        ops = []
-        for i in range(6000 if quick else 12000):
-            r = i % 10
-            if r < 6:
-                ops += gen_conforming(rng, sack_on=(i % 37 != 0))
-            elif r < 7:
-                ops += gen_window_edge(rng)
-            else:
-                ops += gen_adversarial(rng)
-        if not quick:
-            for i in range(60):
-                ops += gen_conforming(rng, max_segs=120)
-        stats += corr.correspond(chk, AREA, exe, ops, case_start=CASE_START, classify=classify, sig_of=sig_of,
-                                 nontrivial=nontrivial)
-        oracle_counts(chk, exe, ops)
+    def found(stats):
+        return stats.get("spec", 0) + stats.get("fault", 0)
+
+    def batch(ops):
+        st = corr.correspond(chk, AREA, exe, ops, case_start=CASE_START, classify=classify, sig_of=sig_of,
+                             nontrivial=nontrivial)
+        if not found(st):
+            oracle_counts(chk, exe, ops)
+        return st
+
+    def batches():
+        yield [l for c in CORPUS for l in c]
+        isns = [M32 - 3, M32 - 1, 0, HALF - 2] if quick else [M32 - 4, M32 - 3, M32 - 2, M32 - 1, 0, 5, HALF - 2, HALF]
+        yield [l for c in exhaustive_cases(4 if quick else 6, isns, 10**7) for l in c]
+        for _ in range(1 if quick else 8):
+            ops = []
+            for i in range(6000 if quick else 12000):
+                r = i % 10
+                if r < 6:
+                    ops += gen_conforming(rng, sack_on=(i % 37 != 0))
+                elif r < 7:
+                    ops += gen_window_edge(rng)
+                else:
+                    ops += gen_adversarial(rng)
+            if not quick:
+                for i in range(60):
+                    ops += gen_conforming(rng, max_segs=120)
+            yield ops
+
+    import collections
+    stats = collections.Counter()
+    for ops in batches():
+        stats += batch(ops)
+        if found(stats):
+            break          # a concrete failing input is on record; the remaining batches would only repeat it
     for p in problems:
         # a theorem no longer checks: the runs above were the search for a concrete failing input
-        found = stats.get("spec", 0) + stats.get("fault", 0)
-        if not found:
+        if not found(stats):
             chk.violation("proof obligation no longer checks: " + p[:1500], ["theorem-or-audit-failure", p[:4000]], nofail=True)
     chk.cov["rule"] = ("cases = (initial ACK incl. wrap-point neighbourhood, history of ACK packets with <= 4 SACK blocks "
                        "emitted by a simulated RFC 2018 receiver for a random / exhaustive arrival order, ACK loss, "
